@@ -447,7 +447,10 @@ theorem inv_pushToBlock2 (P : Params) (st : St) (p : Pkt) {st' : St} {b : Bool}
       · split at h
         · simp at h
         · simp at h; obtain ⟨rfl, rfl⟩ := h
-          exact ⟨inv_complete hi hl, fun hf => by cases hf⟩
+          refine ⟨?_, fun hf => by cases hf⟩
+          split
+          · exact inv_complete hi hl
+          · exact hi
       · split at h
         · simp at h; obtain ⟨rfl, rfl⟩ := h; exact ⟨hi, fun _ => hl⟩
         · split at h
